@@ -24,14 +24,14 @@ func init() { register("C09", "other", checkC09) }
 // confirmed safe by reading the code. Keyed by "function|rule" (all undecided obligations of that rule in
 // that function share the reason); an entry that matches no undecided obligation is reported as unused (information only).
 var c09Triaged = map[string]string{
-	"(TransportLayerCC).Marshal|B-SLC":                    "prefix sums: payload has pad4(16 + 2*len(PacketChunks) + sum(size(d))) octets with size(d) = 1 for small deltas and 2 otherwise (packetLen); the write cursor advances by 1, plus 1 only for large deltas, i.e. by at most size(d), and a delta of any other type makes delta.Marshal fail before the copy",
+	"(TransportLayerCC).Marshal|B-SLC":                    "fallback, unused on the pinned tree where the symbolic-sum engine proves the obligation (cursor = base + prefix sum of the per-delta step, payload = base + full sum of the per-delta size of packetLen, step <= size for every value class of RecvDelta.Type, round-up >= packetLen; size-domain assumption for the 16-bit arithmetic of the size functions). For encoder forms the engine cannot put into that shape (e.g. a cursor advanced by len(b) of a helper with two successful returns) the argument is the same, read from the code: the write cursor advances by exactly the number of octets delta.Marshal returned, which is what packetLen adds for that delta (both checked per size class by C09-SIZE/RecvDelta), and a delta of any other type makes delta.Marshal fail before the copy",
 	"(ReceiverEstimatedMaximumBitrate).MarshalTo|T-LOOP":  "floating-point loop `for bitrate >= 1<<18 { bitrate /= 2; exp++ }`: bitrate is clamped to the finite constant 0x3FFFFp+63 before the loop and a NaN fails the loop condition, so the loop runs at most 64 times (the integer engine does not model floats)",
 }
 
 func checkC09(c *Ctx) {
 	r := c.Rep
 	p := c.Prog
-	r.Explain = "One clause of the property is decided: 'marshalling the returned packets never panics'. The numeric abstract interpreter evaluates every packet type's Marshal (and rtcp.Marshal / CompoundPacket.Marshal with the member encoders opaque) on an UNCONSTRAINED receiver — every field value and list length, list elements non-nil — which includes every packet a decoder can return (decoders append only fresh, non-nil elements: C01's B-NIL facts). Every index, slice bound (against the length), binary.BigEndian access, nil dereference, division, type assertion, negative make and loop in the reachable universe is an obligation that must be entailed at the instruction; slice-bound and binary-access obligations that relate two loops (the size function adds up the element sizes, the encoder advances its cursor by them: SourceDescription, CCFeedbackReport; ApplicationDefined's padding loop against the padding computed again in MarshalSize) are proved by the symbolic-sum engine E3 (cursor = base + prefix sum, buffer = base + full sum of the same per-element term, evaluated from the element encoder and from the size function; for CCFeedbackReport with len(buffer) = MarshalSize() re-established by C05's DET/ALN/LEN rules); two obligation groups that need a per-element case split or floating-point reasoning are discharged by a frozen table of reasons confirmed by reading (c09Triaged). C09-SIZE: every element encoder returns, at its nil-error returns, exactly the number of octets its container reserves for it (symbolic identity between the length of the encoder's result and the size function of the same receiver, or a constant). The other clauses of the property — the re-encoded bytes are accepted again and decode to an equal packet list — relate run-time values of two executions and are NOT decided (the structural part of them is C02-LAY/C05/C16)."
+	r.Explain = "One clause of the property is decided: 'marshalling the returned packets never panics'. The numeric abstract interpreter evaluates every packet type's Marshal (and rtcp.Marshal / CompoundPacket.Marshal with the member encoders opaque) on an UNCONSTRAINED receiver — every field value and list length, list elements non-nil — which includes every packet a decoder can return (decoders append only fresh, non-nil elements: C01's B-NIL facts). Every index, slice bound (against the length), binary.BigEndian access, nil dereference, division, type assertion, negative make and loop in the reachable universe is an obligation that must be entailed at the instruction; slice-bound and binary-access obligations that relate two loops (the size function adds up the element sizes, the encoder advances its cursor by them: SourceDescription, CCFeedbackReport; ApplicationDefined's padding loop against the padding computed again in MarshalSize; TransportLayerCC's delta cursor, whose step is an if-then-else on the delta type, against packetLen's per-delta size by a case split over the values the type is compared with) are proved by the symbolic-sum engine E3 (cursor = base + prefix sum, buffer = base + full sum of the same per-element term, evaluated from the element encoder and from the size function; for CCFeedbackReport with len(buffer) = MarshalSize() re-established by C05's DET/ALN/LEN rules); one obligation group that needs floating-point reasoning (and, as a fallback for encoder forms outside the symbolic engine's reach, TransportLayerCC's delta cursor) is discharged by a frozen table of reasons confirmed by reading (c09Triaged). C09-SIZE: every element encoder returns, at its nil-error returns, exactly the number of octets its container reserves for it (symbolic identity between the length of the encoder's result and the size function of the same receiver, or a constant). The other clauses of the property — the re-encoded bytes are accepted again and decode to an equal packet list — relate run-time values of two executions and are NOT decided (the structural part of them is C02-LAY/C05/C16)."
 	r.RuleText = "C09-NOPANIC: B-IDX, B-SLC, B-BIN, B-NIL, B-DIV, B-TAS, B-MAKE, B-CALL, B-PANIC, T-LOOP over the universe of the 15 packet encoders, rtcp.Marshal and CompoundPacket.Marshal; an obligation the numeric engine leaves open is handed to the symbolic-sum engine (B-SLC, B-BIN), then to c09Triaged; undecided = failure. C09-SIZE: len(enc(x)) = size(x) for the 8 pairs of c09SizePairs."
 	r.Trusted = []string{"go/ssa, VTA call graph", "numeric engine checker/num", "effects analysis (purity of the opaque member encoders in the two datagram-level roots; determinism of the size functions)", "symbolic-sum engine checker/sum", "Go's panic conditions", "frozen table c09Triaged (2 entries with reasons)", "table c09SizePairs (which size each container reserves: 8 entries, confirmed by reading the containers)"}
 	r.Assume = []string{
@@ -227,6 +227,11 @@ func newSumEngine(c *Ctx, an *effects.Analysis) *sum.Engine {
 	se.Pure = pureFn(an)
 	se.AddrWritten = func(a *ssa.Alloc, init *ssa.Store) string { return addrWritten(an, a, init, 0) }
 	se.NonNegOracle = func(fn *ssa.Function, nn bool) bool { return numNonNeg(c, fn, nn) }
+	// size-domain assumption (stated in the evidence): the fixed-width arithmetic of the size functions does not wrap
+	if c05SizeFns == nil {
+		c05SizeFns = sizeUniverse(c)
+	}
+	se.NoWrap = c05SizeFns
 	return se
 }
 
